@@ -49,9 +49,9 @@ CLASSIFIERS = {"cmp_tiny_input_runtime_error": cmp_tiny_input}
 def P(**kw): return kw
 
 PROPS = {
-    "C01": P(comp="idx", gen=lambda t, s: gens.gen_idx(t, s), judges=["C01"], kinds=("IDX",),
+    "C01": P(comp="idx", gen=lambda t, s: gens.gen_idx(t, s), judges=["C01"], kinds=("IDX", "FLT"),
              nontrivial=lambda line: len(line.split("|")[1].split()) >= 2),
-    "C02": P(comp="idx", gen=lambda t, s: gens.gen_idx(t, s + 1), judges=["C02"], kinds=("IDX",),
+    "C02": P(comp="idx", gen=lambda t, s: gens.gen_idx(t, s + 1), judges=["C02"], kinds=("IDX", "FLT"),
              nontrivial=lambda line: len(line.split("|")[1].split()) >= 2),
     "C07": P(comp="idx", gen=lambda t, s: gens.gen_idx(t, s + 2), judges=["C07"], kinds=("IDX",),
              nontrivial=lambda line: len(line.split("|")[1].split()) >= 64),
